@@ -211,6 +211,12 @@ def run(ctx):
     cx, cy, cz = C.centroid(fl)
     structures.append(("frag-3SGB-E0+40 across x=-100", C.join(C.translate(fl, -100000 - cx, 0, 0))))
     structures.append(("frag-3SGB-E0+40 across y=+1000 z=-100", C.join(C.translate(fl, 0, 1000000 - cy, -100000 - cz))))
+    # insertion-coded residues of different types on one number (48, 48A-D) in a structure that has a second conformation
+    # (alternate locations of a side chain elsewhere): both conformations hold all of them, fully protonated
+    ins = C.chain_lines("3SGB", "E", 19, 16)
+    tgt = [C.resid(ln) for ln in ins if C.is_atom(ln) and ln[17:20] in ("SER", "THR", "VAL", "LEU") and C.resid(ln)[1] > 50]
+    if tgt:
+        structures.append(("frag-3SGB-E-ins48+altloc", C.join(C.add_altloc(ins, tgt[0]) + [C.TER])))
     # ... and with occupancy 0.00 on a fifth of its atoms (model-built atoms): the residues are as complete as before
     structures.append(("frag-3SGB-E0+40 occupancy 0.00 on every fifth atom",
                        C.join([(ln.ljust(60)[:54] + "  0.00" + ln.ljust(80)[60:]) if (C.is_atom(ln) and k_ % 5 == 2) else ln
@@ -250,11 +256,15 @@ def run(ctx):
             for j in rr_["ids"]:
                 by_line[j] = rr_
         warn = [w for w in rr.warnings if "issing atoms or failed protonation" in w[1]]
-        conf = rr.mol.conformations[rr.mol.conformation_names[0]]
-        # complements per complete residue with chain neighbours
+        # complements per complete residue with chain neighbours - in every conformation (each is completed before it is
+        # protonated; residues with alternate locations themselves are left to the first conformation)
         expected = complement_table(res_list, idx)
-        for a in conf.atoms:
+        altres = {by_line[j]["pos"] for j, r_ in enumerate(idx.recs) if r_ is not None and r_.alt not in (" ", "") and j in by_line}
+        atoms_ = [(ci_, a_) for ci_, cn_ in enumerate(rr.mol.conformation_names) for a_ in rr.mol.conformations[cn_].atoms]
+        for ci_, a in atoms_:
             if a.element == "H":
+                continue
+            if ci_ > 0 and (idx.gid(a) not in by_line or by_line[idx.gid(a)]["pos"] in altres):
                 continue
             gid = idx.gid(a)
             # default runs drop every supplied hydrogen: all hydrogens found afterwards were built by the program
